@@ -166,6 +166,22 @@ def e2e(case):
             tot = sum(n.history[name][t] for n in nets)
             if not close(ps.history[name][t], tot):
                 viols.append((f"e2e.levels-{name}", f"system {name} {ps.history[name][t]} != sum over networks {tot} at t={t}"))
+    # the EV indices at the last logged instant against their definitions, from the parks themselves
+    if times:
+        tl = times[-1]
+        for obj in [ps] + nets:
+            parks = list(getattr(obj, "ev_parks", []) or [])
+            if not parks or "EV_Interruption" not in obj.history:
+                continue
+            cars = sum(p_.num_cars for p_ in parks)
+            want_int = sum(float(p_.acc_exp_interruptions) * p_.num_cars for p_ in parks) / cars if cars else 0.0
+            nint = sum(p_.acc_num_interruptions for p_ in parks)
+            want_dur = sum(p_.acc_interruption_duration.get_hours() for p_ in parks) / nint if nint else 0.0
+            want_idx = sum(p_.get_ev_index() for p_ in parks)
+            for name, want in (("EV_Interruption", want_int), ("EV_Duration", want_dur), ("EV_Index", want_idx)):
+                got = obj.history[name][tl]
+                if not close(float(got), float(want)):
+                    viols.append((f"e2e.{name}", f"{obj.name} {name} at t={tl}: reported {got}, its definition over the {len(parks)} parks gives {want}"))
     # files vs memory
     nfiles = 0
     for obj in [ps] + nets:
